@@ -7,16 +7,20 @@
    of [Run p] (one file operation of process p), [Crash p] (p is killed; the OS drops its
    advisory lock) and [Tick d] events.
 
-   TERMINOLOGY.  /repo contains the four repairs of this property:
+   TERMINOLOGY.  /repo contains the FIVE repairs of this property:
      da46472 (C19-F1) CacheLock actually acquires the cache lock
      19ec63c (C19-F2) bundled schemas are copied into the cache atomically
      160dd4a (C19-F3) a bundled version loads although the cache holds only part of the files
      b23f2f7 (C19-F4) an empty/garbled last_update.txt is tolerated and written atomically
+     8dfe516 (C19-F5) a cache copy that cannot be parsed falls back to the installed file
    "THE CODE AS IT IS" therefore means the process kinds KLoadFixed / KRefreshFixed / KRefreshOf
    (identifiers are historical: "Fixed" = as fixed by these commits) and KDownload (the download
    path's _safe_move_tmp_to_folder, unchanged), with every ANTI-PATTERN switch of cfg false and
-   parse_fallback false; the harness drives /repo against exactly these programs (FIXED = 1, its
-   default).  The kinds KLoad / KRefresh ([is_prefix_kind]) are the behaviour BEFORE those
+   the repair switch parse_fallback TRUE (8dfe516); the harness drives /repo against exactly these
+   programs (VERIF_C19_FIXED = 2, its default).  Theorems that do not mention parse_fallback hold
+   for both values of it, hence for the code as it is; parse_fallback = false is the behaviour
+   before 8dfe516 (record: C19_preexisting_torn_file_witness).  The kinds KLoad / KRefresh
+   ([is_prefix_kind]) are the behaviour BEFORE the first four
    commits; every theorem about them (the three [_refuted] ones, the witnesses up to
    C19_stamp_witness, C19_finished_population_identical, C19_two_finish_example) is kept as the
    RECORD OF THE REPAIRED DEFECTS and says nothing about the present implementation.  The cfg
@@ -198,7 +202,7 @@ Theorem C19_safe_move_atomic : forall c t ks evs f x,
 Proof. exact safe_move_atomic. Qed.
 Print Assumptions C19_safe_move_atomic.
 
-(* ---- THE CODE AS IT IS (/repo with da46472, 19ec63c, 160dd4a, b23f2f7; kinds K..Fixed):
+(* ---- THE CODE AS IT IS (/repo with da46472, 19ec63c, 160dd4a, b23f2f7, 8dfe516; kinds K..Fixed):
         the full clauses, all schedules, from an empty directory.  The same from a directory in
         any state: C19_*_any_directory at the end of this file. ------------------------------- *)
 
@@ -491,11 +495,20 @@ Example C19_two_finish_example :
   outcome_of w 0 = Some OLoaded /\ outcome_of w 1 = Some OLoaded.
 Proof. exact two_finish_example. Qed.
 
-(* the code as it is (model in the mode that matches /repo): a populator is killed while holding the
-   lock in the middle of a copy, a second populator, a loader and a refresher interleave *)
+(* the code as it is: a populator is killed while holding the lock in the middle of a copy, a
+   second populator, a loader and a refresher interleave.  c2 has parse_fallback off (no unparseable
+   file occurs in this run); the same schedule with the switch on, i.e. exactly the mode that
+   matches /repo since 8dfe516, is C19_fixed_example_f5 below. *)
 Example C19_fixed_example :
   let w := run c2 (init t0 [KLoadFixed 1; KLoadFixed 1; KLoadFixed 0; KRefreshFixed]) ev_fixed in
   pc_at w 0 = Some Dead /\ outcome_of w 1 = Some OLoaded /\ outcome_of w 2 = Some OLoaded /\
   outcome_of w 3 = Some OSkipped /\ ver w 0 = Some (good 2) /\ ver w 1 = Some (good 2) /\
   locks (sh w) = [] /\ fget (files_of (sh w)) (Tmp 0 0) = Some [Good].
 Proof. exact fixed_example. Qed.
+
+Example C19_fixed_example_f5 :
+  let w := run c2f (init t0 [KLoadFixed 1; KLoadFixed 1; KLoadFixed 0; KRefreshFixed]) ev_fixed in
+  pc_at w 0 = Some Dead /\ outcome_of w 1 = Some OLoaded /\ outcome_of w 2 = Some OLoaded /\
+  outcome_of w 3 = Some OSkipped /\ ver w 0 = Some (good 2) /\ ver w 1 = Some (good 2) /\
+  locks (sh w) = [] /\ fget (files_of (sh w)) (Tmp 0 0) = Some [Good].
+Proof. exact fixed_example_f5. Qed.
